@@ -80,8 +80,11 @@ def nullable(e, seen=None):
 
 
 # boundaries that are line structure or content, not token boundaries of a statement (DESIGN.md, C08)
-EXEMPT = {("comment", 0), ("aaa_prog", 0), ("aaa_prog", 1), ("aaa_prog", 2), ("aaa_prog", 3), ("multi_line_element", 0),
+EXEMPT = {("comment", 0), ("aaa_prog", 0), ("aaa_prog", 1), ("aaa_prog", 2), ("aaa_prog", 3), ("multi_line_element", 0), ("multi_line_element", 1),
           ("data_element0", 1), ("data_elements", 0), ("data_elements", 1), ("data_str_element1", 0)}
+
+
+EXEMPT_REP = set()
 
 
 def boundaries():
@@ -105,6 +108,12 @@ def boundaries():
                                and (blank_only(ms[k - 1]) or absorbs(ms[k - 1], "trail")))
                     if not (absorbs(a, "trail") or absorbs(b, "lead") or prev_ok) and (name, k) not in EXEMPT:
                         missing.append("%s: between member %d (%s) and %d (%s)" % (name, k, a.name or a.as_rule()[:30], k + 1, b.name or b.as_rule()[:30]))
+            if isinstance(e, PE.Quantifier) and e.max > 1 and not blank_only(e.members[0]) and not isinstance(e.members[0], PE.Regex):
+                # a repeated element meets itself: the end of one repetition and the start of the next is a token boundary too
+                m = e.members[0]
+                n += 1
+                if not (absorbs(m, "trail") or absorbs(m, "lead")) and (name, "rep") not in EXEMPT_REP:
+                    missing.append("%s: between two repetitions of %s" % (name, m.name or m.as_rule()[:40]))
             for m in getattr(e, "members", ()):
                 if not getattr(m, "name", ""):
                     walk(name, m, seen)
@@ -128,6 +137,10 @@ FORMS = [
     'IF{+}A1${_}={_}"x"{+}AND{+}B2{_}<{_}3{+}THEN{_}100', "IF{_}({_}A1{_}={_}1{_}){+}OR{+}NOT{_}({_}B2{_}>{_}2{_}){+}THEN{_}100",
     "A1=1{_}:{_}B2=2{_}:{_}C3=3", "A1=&{_}H{_}FF", "A1=1{_}0", "A1=1{_}.{_}5{_}E{_}+{_}3", "A1=1{_}E{_}5", "A1=2{_}E{_}-{_}3", "A1=.5{_}E{_}2", "A1=B2{_}+{_}3{_}E{_}1", "A1=VARPTR{_}({_}B2{_})", "A1=PEEK{_}({_}1024{_})", "WIDTH{_}40", "LOCATE{_}1{_},{_}2", "A1=ERNO", "CLEAR{_}200", "A1=POINT{_}({_}1{_},{_}2{_})",
 ]
+FORMS += ["READ{+}A1{_},{_}B2${_},{_}C3{_},{_}D4$", "INPUT{+}A1{_},{_}B2${_},{_}C3", 'INPUT{_}"p"{_};{_}A1{_},{_}B2{_},{_}C3$', "NEXT{+}I1{_},{_}J2{_},{_}K3", "DIM{+}A1{_},{_}B2${_}({_}2{_}){_},{_}C3{_}({_}4{_})",
+          'PRINT{+}A1{_};{_}B2{_};{_}C3${_},{_}D4', "ON{+}A1{+}GOTO{_}100{_},{_}200{_},{_}100", "ON{+}A1{+}GOSUB{_}100{_},{_}200{_},{_}100", "A1=B2{_}+{_}C3{_}+{_}D4{_}-{_}1",
+          "A1=B2{_}*{_}C3{_}/{_}D4{_}*{_}2", "A1=B2{+}AND{+}C3{+}AND{+}D4", "A1=B2{+}OR{+}C3{+}OR{+}D4", "A1{_}({_}1{_},{_}2{_},{_}3{_}){_}={_}B2{_}({_}3{_},{_}2{_},{_}1{_})",
+          "A1=1{_}:{_}B2=2{_}:{_}C3=3{_}:{_}D4=4", 'A1$=B2${_}+{_}"x"{_}+{_}C3${_}+{_}"y"', "DATA 1{_},2{_},3", "A1=B2{_}^{_}2{_}^{_}3"]
 FORMS += [re.sub(r"^([A-Z]+) ", r"\\1{+}", t).replace("{e}", "A1").replace("{s}", "A1$").replace(",", "{_},{_}").replace("(", "{_}({_}").replace(")", "{_}){_}") for _, t, _, _ in ROWS]
 
 KNOWN_LAYOUT = {}
@@ -172,6 +185,11 @@ def line_structure():
             variants["eol=%r,final2" % eol] = eol.join(lines) + eol + eol
             variants["eol=%r,blank-lines" % eol] = eol + eol + lines[0] + eol + eol + lines[1] + eol + lines[2] + eol
             variants["eol=%r,final,NUL" % eol] = eol.join(lines) + eol + "\x00"
+            # a line that holds only blanks is a blank line
+            variants["eol=%r,blank-lines-with-blanks-leading" % eol] = eol + "  " + eol + " " + eol + eol + " " + eol + eol.join(lines) + eol
+            variants["eol=%r,two-runs-of-leading-blank-lines" % eol] = "  " + eol + eol + "  " + eol + eol.join(lines) + eol
+            variants["eol=%r,blank-lines-with-blanks-between" % eol] = lines[0] + eol + "  " + eol + lines[1] + eol + eol + " " + eol + eol + lines[2] + eol
+            variants["eol=%r,blank-lines-with-blanks-at-the-end" % eol] = eol.join(lines) + eol + "  " + eol + eol + " " + eol
         variants["NUL-glued"] = "\n".join(lines) + "\x00"
         variants["question-mark"] = "\n".join([lines[0], '20 ? "x  y";B', lines[2]]) + "\n"
         variants["blank-before-eol"] = "\n".join(l + "  " for l in lines) + "\n"
